@@ -390,6 +390,7 @@ type pairCfg struct {
 	PrioA      []uint32 `json:"prio_a,omitempty"`
 	PrioB      []uint32 `json:"prio_b,omitempty"`
 	Monitor    bool     `json:"monitor,omitempty"` // evaluate the C03 selection ledger after every event
+	ReadBuf    int      `json:"read_buf,omitempty"` // (data model) size of the application's read buffer; 0 = larger than any datagram
 }
 
 const (
